@@ -22,6 +22,15 @@ def run(ctx):
     C.rule('C06-MUST-rewrite', 'ordered maintenance obligations after the rename / move trigger, each a dominance or all-Ok-paths query in ElementRaw::{set_item_name, move_element_local, move_element_full}')
     C.rule('C06-DEV-others-untouched', 'referrer text is written only under the prefix test (rename) or only for keys taken from the moved subtree\'s own path list (move)')
 
+    # ---------------- premises shared with C04 / C05 ----------------
+    # a rewritten reference designates the element only if (a) the path index was re-keyed for EVERY nested entry and (b) every referrer
+    # of the path was in its list: the re-key scan and the insert / remove discipline of the referrer map are obligations of C06 as well
+    C.rule('C06-MUST-complete-lists', 'the re-keying of the path index scans every key (shared with C04-PAIR-index); no operation on the referrer map replaces or drops a list that may hold referrers (shared with C05-DEV-insert / C05-DEV-remove)')
+    from c04 import rekey_scan_rule
+    from c05 import dev_map_rules
+    rekey_scan_rule(C, P, 'C06-MUST-complete-lists')
+    dev_map_rules(C, P, 'C06-MUST-complete-lists', 'C06-MUST-complete-lists')
+
     # ---------------- set_item_name ----------------
     si = P.get('ElementRaw::set_item_name')
     w = calls(si, r'ElementRaw>::set_character_data')
